@@ -6,16 +6,47 @@ import Nebula.Lemmas.HostMapOps
 namespace Nebula.HostMap
 open FMap
 
+/-- the frame of an operation that prepares tunnel `h` (not live before) and then runs `unlockedAddHostInfo(h)` -/
+theorem opFrame_of_addHost {s0 s t : State} {h : Nat} (c0 : Core none s0) (c : Core none s) (hnl : ¬ Live s0 h)
+    (hi : s.indexes = s0.indexes) (hr : s.rindexes = s0.rindexes) (hrs : s.rs = s0.rs)
+    (ho : ∀ x, x ≠ h → s.obj x = s0.obj x)
+    (hp : ∀ i, s0.pidx.get i = some h → (s.obj h).lidx = i ∧ (s.obj h).ready = true)
+    (f : AddHostFrame s t h) : OpFrame s0 t [h] := by
+  have hto : ∀ x, t.obj x = s.obj x := fun x => by simp [State.obj, f.objs]
+  refine ⟨fun i x e => ?_, fun x hl => ?_, fun x i hk => ?_, fun i x e => ?_, fun r x e => ?_⟩
+  · rcases f.idxSub i x e with k | k
+    · exact Or.inl (hi ▸ k)
+    · exact Or.inr (by simp [k])
+  · have hxh : x ≠ h := by rintro rfl; exact hnl hl
+    rw [hto, ho x hxh]
+  · have e1 : s.rstate x = s0.rstate x := by simp [State.rstate, hrs]
+    rw [← e1] at hk
+    rw [(f.rs x (c.rok x)).2.2.1 i]; exact hk
+  · by_cases hxh : x = h
+    · subst hxh; rw [hto]; exact hp i e
+    · rw [hto, ho x hxh]
+      obtain ⟨p1, _, _, p4⟩ := c0.pidx i x e
+      exact ⟨p1, p4⟩
+  · rw [← hr] at e
+    rcases f.ridxKeep r x e with k | k | k
+    · exact Or.inl k
+    · right; left; intro hl; simp only [Live, hto] at hl; exact k hl
+    · right; right; exact ⟨h, k, by simp⟩
+
+theorem opFrame_refl {s : State} (c : Core none s) : OpFrame s s [] :=
+  opFrame_basic c rfl rfl (fun _ _ => rfl) (fun _ _ e => e)
+
 theorem pendingDelete_inv {s : State} (i : Inv s) (h : Nat) : Inv (pendingDelete s h) := by
   have d := pendingDelete_spec s h
   exact ⟨pendingDelete_core i.core h, fun a => by rw [hostList_congr d.hosts d.more]; exact i.cap a⟩
 
 /-! ### continueHandshake tail -/
 
-theorem opFin_inv {s : State} (i : Inv s) (idx : Nat) (ads : List Nat) (r t : Nat) : Inv (opFin s idx ads r t).1 := by
+theorem opFin_both {s : State} (i : Inv s) (idx : Nat) (ads : List Nat) (r t : Nat) :
+    Inv (opFin s idx ads r t).1 ∧ OpFrame s (opFin s idx ads r t).1 (s.pidx.get idx).toList := by
   unfold opFin
   cases hp : s.pidx.get idx with
-  | none => exact i
+  | none => exact ⟨i, (opFrame_refl i.core).mono (by simp)⟩
   | some h =>
     simp only
     obtain ⟨p1, p2, p3, p4⟩ := i.core.pidx idx h hp
@@ -82,25 +113,56 @@ theorem opFin_inv {s : State} (i : Inv s) (idx : Nat) (ads : List Nat) (r t : Na
         intro j
         have : s2.rstate h = s.rstate h := by simp [State.rstate, d.rs, s1, State.setObj]
         rw [this]; exact no_relay_idx_of_pidx i.core hp j
-      refine (addHost_inv c2 cap2 ?_ ?_ ?_ hvp hnr2).1
-      · rw [ho2, d.indexes]; simpa [o, p1, s1, State.setObj] using p3
-      · rw [ho2]; simpa [o, p1] using p2
-      · have hpp : s1.pidx = s.pidx := rfl
-        rw [ho2, d.pidx, ho1, hpp]; simp [o, p1, hp]
+      have key : Inv (addHost s2 h) ∧ AddHostFrame s2 (addHost s2 h) h := by
+        refine addHost_inv c2 cap2 ?_ ?_ ?_ hvp hnr2
+        · rw [ho2, d.indexes]; simpa [o, p1, s1, State.setObj] using p3
+        · rw [ho2]; simpa [o, p1] using p2
+        · have hpp : s1.pidx = s.pidx := rfl
+          rw [ho2, d.pidx, ho1, hpp]; simp [o, p1, hp]
+      refine ⟨key.1, ?_⟩
+      simp only [Option.toList_some]
+      refine opFrame_of_addHost i.core c2 hnl d.indexes d.rindexes d.rs ?_ ?_ key.2
+      · intro x hx
+        simp [State.obj, d.objs, s1, State.setObj, get_set, Ne.symm hx]
+      · intro j hj
+        rw [ho2]
+        exact ⟨by simp [o, (i.core.pidx j h hj).1], by simp [o, p4]⟩
     · simp only [hc, Bool.false_eq_true, ↓reduceIte]
-      exact startHandshake_inv (pendingDelete_inv i h) _
+      refine ⟨startHandshake_inv (pendingDelete_inv i h) _, ?_⟩
+      have d := pendingDelete_spec s h
+      refine (opFrame_basic i.core ?_ ?_ ?_ ?_).mono (by simp)
+      · unfold startHandshake; split <;> simp [d.indexes]
+      · unfold startHandshake; split <;> simp [d.rindexes]
+      · intro x hx
+        have hlt : x < s.next := by
+          apply lt_next_of_lidx i.core
+          rcases hx with hl | ⟨j, hj⟩
+          · have := i.core.idx _ x hl; exact this.1 ▸ this.2
+          · obtain ⟨q1, q2, _⟩ := i.core.pidx j x hj; rw [q1]; exact q2
+        unfold startHandshake; split
+        · simp [State.obj, d.objs]
+        · simp only [State.obj, d.objs, d.next, get_set]
+          have : s.next ≠ x := by omega
+          simp [this]
+      · intro x j hk
+        unfold startHandshake; split <;> simpa [State.rstate, d.rs] using hk
+
+theorem opFin_inv {s : State} (i : Inv s) (idx : Nat) (ads : List Nat) (r t : Nat) : Inv (opFin s idx ads r t).1 :=
+  (opFin_both i idx ads r t).1
 
 /-! ### beginHandshake tail -/
 
 theorem checkAndComplete_inv {s : State} (i : Inv s) (h : Nat) (hz : (s.obj h).lidx ≠ 0)
     (hv : ∀ a, s.vpnIps.get a ≠ some h) (hpn : ∀ j, s.pidx.get j ≠ some h)
-    (hnr : ∀ i, ((s.rstate h).byIdx.get i).isSome = false) : Inv (checkAndComplete s h).1 := by
+    (hnr : ∀ i, ((s.rstate h).byIdx.get i).isSome = false) :
+    Inv (checkAndComplete s h).1 ∧
+      ((checkAndComplete s h).1 = s ∨ AddHostFrame s (checkAndComplete s h).1 h) := by
   unfold checkAndComplete
   simp only
   split
-  · exact i
+  · exact ⟨i, Or.inl rfl⟩
   · cases hi : s.indexes.get (s.obj h).lidx with
-    | some x => exact i
+    | some x => exact ⟨i, Or.inl rfl⟩
     | none =>
       simp only
       cases hp : s.pidx.get (s.obj h).lidx with
@@ -109,13 +171,16 @@ theorem checkAndComplete_inv {s : State} (i : Inv s) (h : Nat) (hz : (s.obj h).l
         by_cases e : p = h
         · subst e; exact absurd hp (hpn _)
         · simp [e]; exact i
-      | none => exact (addHost_inv i.core i.cap hi hz hp hv hnr).1
+      | none =>
+        have key := addHost_inv i.core i.cap hi hz hp hv hnr
+        exact ⟨key.1, Or.inr key.2⟩
 
-theorem opResp_inv {s : State} (i : Inv s) (ads : List Nat) (r p t : Nat) (st : List Nat) :
-    Inv (match opResp s ads r p t st with | some (s', _) => s' | none => s) := by
+theorem opResp_both {s : State} (i : Inv s) (ads : List Nat) (r p t : Nat) (st : List Nat) :
+    Inv (match opResp s ads r p t st with | some (s', _) => s' | none => s) ∧
+    OpFrame s (match opResp s ads r p t st with | some (s', _) => s' | none => s) [s.next] := by
   unfold opResp
   cases hg : genIndex st with
-  | none => exact i
+  | none => exact ⟨i, (opFrame_refl i.core).mono (by simp)⟩
   | some q =>
     obtain ⟨idx, st'⟩ := q
     simp only
@@ -138,8 +203,27 @@ theorem opResp_inv {s : State} (i : Inv s) (ads : List Nat) (r p t : Nat) (st : 
         exact ⟨by omega, by omega⟩
     have i1 : Inv s1 := ⟨c1, fun a => by simpa [s1, hostList] using i.cap a⟩
     have ho : s1.obj s.next = o := by simp [s1, State.obj, get_set]
-    exact checkAndComplete_inv i1 s.next (by rw [ho]; exact genIndex_nonzero hg) u1 u2
+    obtain ⟨iv, fr⟩ := checkAndComplete_inv i1 s.next (by rw [ho]; exact genIndex_nonzero hg) u1 u2
       (no_relay_idx_of_fresh i.core (Nat.le_refl _))
+    refine ⟨iv, ?_⟩
+    have hox : ∀ x, x ≠ s.next → s1.obj x = s.obj x := fun x hx => by
+      simp [s1, State.obj, get_set, Ne.symm hx]
+    rcases fr with e | fr
+    · rw [e]
+      refine (opFrame_basic (post := s1) i.core rfl rfl ?_ (fun _ _ e => e)).mono (by simp)
+      intro x hx
+      apply hox
+      have hlt : x < s.next := by
+        apply lt_next_of_lidx i.core
+        rcases hx with hl | ⟨j, hj⟩
+        · have := i.core.idx _ x hl; exact this.1 ▸ this.2
+        · obtain ⟨q1, q2, _⟩ := i.core.pidx j x hj; rw [q1]; exact q2
+      omega
+    · exact opFrame_of_addHost i.core c1 u3 rfl rfl rfl hox (fun j hj => absurd hj (u2 j)) fr
+
+theorem opResp_inv {s : State} (i : Inv s) (ads : List Nat) (r p t : Nat) (st : List Nat) :
+    Inv (match opResp s ads r p t st with | some (s', _) => s' | none => s) :=
+  (opResp_both i ads r p t st).1
 
 /-! ### AddRelay -/
 
